@@ -762,6 +762,10 @@ def build_cases(tier="quick"):
 
     ref = [Case(f"{PROP}/sevm.SEVM.create_branch#block-ownership", c.case, c.harness, replay=c.replay, sources=c.sources) for c in c02.path_cases() if "create_branch" in c.unit]
     ref += [Case(f"{PROP}/" + c.unit.split("/", 1)[1] + "#block-ownership", c.case, c.harness, replay=c.replay, sources=c.sources) for c in c20.fork_cases() if c.unit.endswith(("create_branch", "run_message"))]
+    # vm.etch of a fresh address: a symbolic address that was resolved to `no account` before must see the new code (C02's unit)
+    from contracts.common import rewrap
+
+    ref += rewrap(PROP, c02.alias_cases(), "etch-visible-through-aliases", lambda c: "set_code" in c.case)
     return default_block_cases() + prank_cases() + resolve_prank_cases() + prank_arm_cases() + setter_cases() + create_cases() + call_prank_cases() + ref
 
 
